@@ -1,5 +1,9 @@
-from .synccheck import main as _main
+from .synccheck import main as _main, replay as _replay
 
 
 def main(tier: str) -> int:
     return _main('C01', tier)
+
+
+def replay(path: str) -> int:
+    return _replay('C01', path)
